@@ -360,6 +360,85 @@ def illumina_chunk(args):
     return n, changed, bad[:20]
 
 
+# ------------------------------------------------------------------------------------------------ C: short-read junctions end to end
+SHORT_SETS = {
+    "annotated": [],                                                     # the introns of T1 only
+    "plus-skip": [(E["e1"][1] + 1, E["e2"][0] - 1)],                     # + the intron that skips the micro-exon
+    "plus-shifted": [(1201, 1604), (1797, 2100), (2705, 2850), (2895, 3100)],   # + 4-bp shifted variants and a pair that looks like a skipped exon
+}
+
+
+def illumina_e2e_case(args):
+    """annotation-free run (every read goes through the short-read corrector) of the noise family with --illumina_bam: the short reads
+       support the introns of T1 (+ a set of additional introns).  Every corrected record is valid BED12, keeps start and end, every splice
+       site is the read's own or a site of a short-read intron; the result equals the corrector applied to the read with the complete set
+       of short-read introns (wiring: region fetch, 0/1-based conversion, several short-read files)"""
+    sset, nfiles, mirror, scratch = args
+    from vlib import syn, run
+    w, reads = noise_world(4, 1)
+    w["genes"] = []
+    t1_introns = [(E[T1[i]][1] + 1, E[T1[i + 1]][0] - 1) for i in range(len(T1) - 1)]
+    short = t1_introns + SHORT_SETS[sset]
+    dd = os.path.join(scratch, "c14c_%s_%d_%d" % (sset, nfiles, mirror))
+    shutil.rmtree(dd, ignore_errors=True)
+    seqs = syn.genome_sequences(w)
+    sreads = []
+    for k, (a, b) in enumerate(short):
+        for rep in range(2):
+            sreads.append({"name": "s%d_%d" % (k, rep), "chr": "chr1", "blocks": [[a - 40 - rep, a - 1], [b + 1, b + 40 + rep]]})
+    if mirror:
+        return (sset, nfiles, mirror), [], 0, 0           # (reserved)
+    paths = syn.materialise(w, dd, gtf=False)
+    sb = []
+    for fi in range(nfiles):
+        sb.append(syn.write_bam(w, os.path.join(dd, "short%d.bam" % fi), reads=[r for i, r in enumerate(sreads) if i % nfiles == fi], seqs=seqs))
+    out = os.path.join(dd, "out")
+    rc = run.run_isoquant(run.base_argv(paths, out, genedb=False, extra=["--no_model_construction", "--illumina_bam"] + sb), paths["home"],
+                          os.path.join(dd, "o.txt"))
+    errs = []
+    if rc != 0:
+        errs.append(("run-failed", "exit %d: %s" % (rc, open(os.path.join(dd, "o.txt")).read()[-300:])))
+        shutil.rmtree(dd, ignore_errors=True)
+        return (sset, nfiles, mirror), errs, 0, 0
+    bed = run.parse_bed(run.find(out, "OUT", ".corrected_reads.bed"))
+    from src.illumina_exon_corrector import IlluminaExonCorrector
+    corr = IlluminaExonCorrector.from_data(set(short))
+    sl = set(x[0] for x in short)
+    sr = set(x[1] for x in short)
+    changed = 0
+    for b in bed:
+        nm = b["name"]
+        if nm not in reads:
+            continue
+        rd, devs, blocks = reads[nm]
+        kinds = "+".join(sorted(set(x[0] for x in devs))) or "exact"
+        if any(x[0] == "aligned-polya" for x in devs):
+            continue          # the trimmed tail block changes the input alignment itself (covered by part A)
+        for e in bed_validity(b, w["chroms"]["chr1"]):
+            errs.append(("invalid-bed:" + kinds, "read %s %s (blocks %s): %s; record %s" % (nm, list(devs), blocks, e, b["raw"])))
+        cb = b["blocks"]
+        if cb != list(blocks):
+            changed += 1
+        if cb[0][0] != blocks[0][0] or cb[-1][1] != blocks[-1][1]:
+            errs.append(("start-end-moved:" + kinds, "read %s %s moved from %d-%d to %d-%d" % (nm, list(devs), blocks[0][0], blocks[-1][1], cb[0][0], cb[-1][1])))
+        own_l = set(blocks[i][1] + 1 for i in range(len(blocks) - 1))
+        own_r = set(blocks[i + 1][0] - 1 for i in range(len(blocks) - 1))
+        for i in range(len(cb) - 1):
+            l, r = cb[i][1] + 1, cb[i + 1][0] - 1
+            if (l not in own_l and l not in sl) or (r not in own_r and r not in sr):
+                errs.append(("foreign-splice-site:" + kinds, "read %s %s (input %s): corrected intron %d-%d has a site that is neither the read's own "
+                             "nor a short-read one; corrected blocks %s" % (nm, list(devs), blocks, l, r, cb)))
+        exp = [tuple(x) for x in corr.correct_exons([tuple(x) for x in blocks])]
+        if not rd.get("edits") and cb != exp:
+            errs.append(("differs-from-corrector:" + kinds, "read %s %s (input %s): pipeline prints %s, the corrector with all %d short-read introns gives %s" %
+                         (nm, list(devs), blocks, cb, len(short), exp)))
+    missing = set(n for n, v in reads.items() if not any(x[0] == "aligned-polya" for x in v[1])) - set(b["name"] for b in bed)
+    if missing:
+        errs.append(("read-missing", "%d reads missing from the BED, e.g. %s" % (len(missing), sorted(missing)[0])))
+    shutil.rmtree(dd, ignore_errors=True)
+    return (sset, nfiles, mirror), errs, len(bed), changed
+
+
 def run(ctx):
     quick = ctx.tier == "quick"
     d = 1 if quick else 2
@@ -391,6 +470,17 @@ def run(ctx):
                           {"exons": ex, "short_introns": short})
     ctx.note("B: %d short-read intron subsets (<=%d of %d) x %d reads = %d corrector calls, %d changed the alignment" %
              (len(subsets), maxk, len(menu), len(reads), nb, cb))
+    cjobs = [(ss, nf, 0, ctx.scratch) for ss in SHORT_SETS for nf in ((1, 2) if quick else (1, 2, 3))]
+    nc = cc = 0
+    for key, errs, n, ch in core.pmap(illumina_e2e_case, cjobs):
+        nc += n
+        cc += ch
+        for k, msg in errs:
+            ctx.violation("illumina-e2e:%s" % k, "short-read intron set %s in %d file(s): %s" % (key[0], key[1], msg),
+                          {"illumina_e2e": [key[0], key[1], key[2]]})
+    ctx.note("C: %d annotation-free runs with --illumina_bam, %d BED records checked, %d changed by the short-read correction" % (len(cjobs), nc, cc))
+    nbed += nc
+    nchanged += cc
     ctx.coverage.update({
         "evaluations": nbed + nb, "distinct_nontrivial": nchanged + cb,
         "rule": "A: case = (read derived from T1 by <=%d noise edits, strategy, preset); B: case = (read exon list, subset of the short-read intron "
@@ -404,6 +494,9 @@ def run(ctx):
 
 
 def replay(ctx, c):
+    if "illumina_e2e" in c:
+        key, errs, n, ch = illumina_e2e_case(tuple(c["illumina_e2e"]) + (ctx.scratch,))
+        return errs[0][1] if errs else None
     if "exons" in c:
         return "IlluminaExonCorrector.from_data(%r).correct_exons(%r)" % (c["short_introns"], c["exons"])
     key, errs, nb, ch = pipeline_case((c["strategy"], c["preset"], c.get("d", 1), ctx.scratch, c.get("mirror", 0), c.get("delta")))
